@@ -10,6 +10,9 @@ time = TimeFacade()
 _os = OsFacade()
 
 
+FINALLY_MARKS = []
+
+
 def truth(kind, **f):
     cur_sim().tlog(kind, **f)
 
@@ -146,6 +149,7 @@ def t_loop(n=200, d=0.01, v='loop-done'):
 def t_loop_finally(marker='M', n=200, d=0.01, v='loop-done'):
     truth('target-enter', fn='t_loop_finally')
     try:
+        truth('try-entered')
         i = 0
         while i < n:
             time.sleep(d)
@@ -154,6 +158,7 @@ def t_loop_finally(marker='M', n=200, d=0.01, v='loop-done'):
         truth('target-leave', how='return')
         return v
     finally:
+        FINALLY_MARKS.append(marker)     # a C call: cannot be pre-empted by the asynchronous exception before it ran
         truth('finally', marker=marker, ident=get_ident())
 
 
@@ -178,6 +183,7 @@ def t_pyloop(n=60, v='pyloop-done'):
     """pure python computation (no system call) so that the asynchronous exception lands inside the target"""
     truth('target-enter', fn='t_pyloop')
     try:
+        truth('try-entered')
         acc = 0
         for i in range(n):
             acc += i
@@ -185,6 +191,7 @@ def t_pyloop(n=60, v='pyloop-done'):
         truth('target-leave', how='return')
         return v
     finally:
+        FINALLY_MARKS.append('pyloop')
         truth('finally', marker='pyloop', ident=get_ident())
 
 
@@ -250,3 +257,13 @@ def p_swallow(x, d=0.01):
 
 TARGETS = {f.__name__: f for f in (t_return, t_raise, t_loop, t_loop_finally, t_swallow, t_sleep, t_pyloop, p_square,
                                    p_echo, p_mutating, p_poison, p_slow, p_falsy, p_swallow)}
+
+
+def t_echo(*args, **kwargs):
+    truth('target-enter', fn='t_echo')
+    r = [[make_value(a) for a in args], {k: make_value(v) for k, v in kwargs.items()}]
+    truth('target-leave', how='return')
+    return r
+
+
+TARGETS['t_echo'] = t_echo
